@@ -13,6 +13,7 @@ from rpv import families
 from rpv.checks.inproc_util import candidate_days, clean_cut, get_ip, sched_from_json, sched_json
 from rpv.gen import METHODS, Profile, history, own_years, parse_ts, schedule
 from rpv.model import Model
+from rpv.workload import deepen
 from rpv.oracle.balance import is_valid
 
 PROPERTY_ID = "C10"
@@ -245,7 +246,7 @@ def run_shard(ctx: Any) -> None:
     done = 0
     while done < share and (ctx.budget_s - ctx.time_left()) < ctx.budget_s * 0.75:
         rng = ctx.rng("case", index)
-        hist = history(rng, PROFILES[index % len(PROFILES)])
+        hist = history(rng, deepen(ctx, index, PROFILES[index % len(PROFILES)]))
         if is_valid(Model(hist)):
             years = own_years(hist)
             sched = {1970: rng.choice(METHODS)} if rng.random() < 0.75 else schedule(rng, years[0], years[-1])
